@@ -236,6 +236,15 @@ class C02(Check):
         ctx.phase(self.corr_struct, ctx)
         ctx.phase(self.oracle, ctx)
 
+    def search(self, ctx):
+        """an obligation or the correspondence broke and the quick run found no failing input: the two phases that can
+        show a violation of the implementation, at thorough size"""
+        ctx.tier_counts = 'thorough'
+        ctx.search_mode = True
+        ctx.phase(self.corr_struct, ctx)
+        if not ctx.violations:
+            ctx.phase(self.oracle, ctx)
+
     # -- structure level: spelled sheets --------------------------------------------------------------
     def corr_struct(self, ctx):
         """abstract sheet x structure-level spelling: (1) the tokens Lean's `render` gives = the tokens of the real
@@ -245,9 +254,7 @@ class C02(Check):
         rng = ctx.sub_rng('c02-struct')
         cases = []
         for i in range(ctx.n(400, 8000)):
-            ast = S.supported(G.gen_sheet(rng))
-            if not ast:
-                continue
+            ast = G.gen_sheet(rng)
             for level, inner in ((0, 0), (1, 1), (2, 2), (3, 3), (3, 4))[:ctx.n(5, 5)]:
                 seed = rng.getrandbits(32)
                 ss = S.spell_sheet(ast, random.Random(seed), level, inner)
@@ -445,6 +452,10 @@ def _real_items(style):
     return out
 
 
+def _page_sel(r):
+    return norm_text(r.selectorText)
+
+
 def _real_rules(rules):
     out = []
     for r in rules:
@@ -455,6 +466,19 @@ def _real_rules(rules):
             out.append(['comment', r.cssText[2:-2]])
         elif t == r.UNKNOWN_RULE:
             out.append(['unknown', r.cssText])
+        elif t == r.MEDIA_RULE:
+            out.append(['media', norm_text(r.media.mediaText), r.name, _real_rules(r.cssRules)])
+        elif t == r.FONT_FACE_RULE:
+            out.append(['fontface', _real_items(r.style)])
+        elif t == r.PAGE_RULE:
+            out.append(['page', _page_sel(r), _real_items(r.style),
+                        [[m.margin, _real_items(m.style)] for m in r.cssRules]])
+        elif t == r.IMPORT_RULE:
+            out.append(['import', r.href, norm_text(r.media.mediaText), r.name])
+        elif t == r.NAMESPACE_RULE:
+            out.append(['namespace', r.prefix, r.namespaceURI])
+        elif t == r.CHARSET_RULE:
+            out.append(['charset', r.encoding])
         else:
             out.append(['other', t])
     return out
@@ -488,23 +512,33 @@ def model_abstract(model, toks):
             return {'k': 'unknown', 'toks': tl(i['toks'])}
         return i
 
-    out = []
-    for r in model:
-        if r['k'] == 'style':
-            out.append({'k': 'style', 'sels': [tl(g) for g in r['sels']], 'items': [item(i) for i in r['items']]})
-        elif r['k'] == 'unknown':
-            out.append({'k': 'unknown', 'toks': tl(r['toks'])})
-        else:
-            out.append(r)
-    return out
+    def rule(r):
+        k = r['k']
+        if k == 'style':
+            return {'k': 'style', 'sels': [tl(g) for g in r['sels']], 'items': [item(i) for i in r['items']]}
+        if k == 'unknown':
+            return {'k': 'unknown', 'toks': tl(r['toks'])}
+        if k == 'media':
+            return {'k': 'media', 'mq': tl(r['mq']), 'name': r['name'], 'rules': [rule(x) for x in r['rules']]}
+        if k == 'fontface':
+            return {'k': 'fontface', 'items': [item(i) for i in r['items']]}
+        if k == 'page':
+            return {'k': 'page', 'name': r['name'], 'pseudo': r['pseudo'], 'items': [item(i) for i in r['items']],
+                    'margins': [{'name': m['name'], 'items': [item(i) for i in m['items']]} for m in r['margins']]}
+        if k == 'import':
+            return {'k': 'import', 'href': r['href'], 'mq': tl(r['mq']) if r['mq'] is not None else None, 'name': r['name']}
+        return r
+
+    return [rule(r) for r in model]
 
 
-def model_dom(model, toks):
+def model_dom(model, toks, ns=None):
     """the model's projection in the shape of `real_struct`: the opaque token lists the model shows are given to
-    the REAL sub-parsers (Selector, PropertyValue, CSSUnknownRule), so a difference can only come from the
-    structure level"""
+    the REAL sub-parsers (Selector, PropertyValue, MediaList, CSSUnknownRule), so a difference can only come from
+    the structure level"""
     from lib.framework import dec
-    css = _cu().css
+    c = _cu()
+    css = c.css
 
     def tl(ps):
         # the comment-free lists of the projection can have two S tokens in a row, which the tokenizer never
@@ -515,6 +549,9 @@ def model_dom(model, toks):
                 continue
             out.append(toks[p])
         return out
+
+    def optd(v):
+        return dec(v) if v is not None else None
 
     def items(its):
         out = []
@@ -530,22 +567,49 @@ def model_dom(model, toks):
                 out.append(['unknown', css.CSSUnknownRule(cssText=tl(i['toks'])).cssText])
         return out
 
-    out = []
-    for r in model:
-        k = r['k']
-        if k == 'style':
-            sels = []
-            for g in r['sels']:
-                sel = css.Selector(selectorText=(tl(g), {}))
-                sels.append(_sel_proj(sel) if sel.wellformed else None)
-            out.append(['style', sels, items(r['items'])])
-        elif k == 'comment':
-            out.append(['comment', dec(r['body'])])
-        elif k == 'unknown':
-            out.append(['unknown', css.CSSUnknownRule(cssText=tl(r['toks'])).cssText])
-        else:
-            out.append(['other', r.get('kind')])
-    return out
+    def media(ps):
+        ml = c.stylesheets.MediaList()
+        ml.mediaText = tl(ps)
+        return norm_text(ml.mediaText) if ml.wellformed else None
+
+    if ns is None:
+        ns = {}
+        for r in model:
+            if r['k'] == 'namespace':
+                ns[dec(r['pfx'])] = dec(r['uri'])
+
+    def rules(rs):
+        out = []
+        for r in rs:
+            k = r['k']
+            if k == 'style':
+                sels = []
+                for g in r['sels']:
+                    sel = css.Selector(selectorText=(tl(g), ns))
+                    sels.append(_sel_proj(sel) if sel.wellformed else None)
+                out.append(['style', sels, items(r['items'])])
+            elif k == 'comment':
+                out.append(['comment', dec(r['body'])])
+            elif k == 'unknown':
+                out.append(['unknown', css.CSSUnknownRule(cssText=tl(r['toks'])).cssText])
+            elif k == 'media':
+                out.append(['media', media(r['mq']) if r['mq'] else 'all', optd(r['name']), rules(r['rules'])])
+            elif k == 'fontface':
+                out.append(['fontface', items(r['items'])])
+            elif k == 'page':
+                sel = (optd(r['name']) or '') + ((':' + dec(r['pseudo'])) if r['pseudo'] is not None else '')
+                out.append(['page', sel, items(r['items']), [[dec(m['name']), items(m['items'])] for m in r['margins']]])
+            elif k == 'import':
+                out.append(['import', dec(r['href']), media(r['mq']) if r['mq'] is not None else 'all', optd(r['name'])])
+            elif k == 'namespace':
+                out.append(['namespace', dec(r['pfx']), dec(r['uri'])])
+            elif k == 'charset':
+                out.append(['charset', dec(r['enc'])])
+            else:
+                out.append(['other', r.get('kind')])
+        return out
+
+    return rules(model)
 
 
 def first_diff(a, b, path=''):
